@@ -920,11 +920,19 @@ time_zone::absolute_lookup TimeZoneInfo::BreakTime(
     // future_spec_, shift back to a supported year using the 400-year
     // cycle of calendaric equivalence and then compensate accordingly.
     if (extended_) {
-      const std::int_fast64_t diff =
-          unix_time - transitions_[timecnt - 1].unix_time;
-      const year_t shift = diff / kSecsPer400Years + 1;
-      const auto d = seconds(shift * kSecsPer400Years);
-      time_zone::absolute_lookup al = BreakTime(tp - d);
+      // Note: The last transition can be arbitrarily far in the past (the
+      // zoneinfo data need not contain any), so the distance to it is
+      // computed in unsigned arithmetic, and (unix_time - shift * 400 years)
+      // is formed without the intermediate product.
+      const std::int_fast64_t last_time = transitions_[timecnt - 1].unix_time;
+      const auto c4_secs = static_cast<std::uint_fast64_t>(kSecsPer400Years);
+      const std::uint_fast64_t diff =
+          static_cast<std::uint_fast64_t>(unix_time) -
+          static_cast<std::uint_fast64_t>(last_time);
+      const year_t shift = static_cast<year_t>(diff / c4_secs) + 1;
+      const std::int_fast64_t shifted_time =
+          last_time - static_cast<std::int_fast64_t>(c4_secs - diff % c4_secs);
+      time_zone::absolute_lookup al = BreakTime(FromUnixSeconds(shifted_time));
       al.cs = YearShift(al.cs, shift * 400);
       return al;
     }
@@ -995,8 +1003,18 @@ time_zone::civil_lookup TimeZoneInfo::MakeTime(const civil_second& cs) const {
       // future_spec_, shift back to a supported year using the 400-year
       // cycle of calendaric equivalence and then compensate accordingly.
       if (extended_ && cs.year() > last_year_) {
-        const year_t shift = (cs.year() - last_year_ - 1) / 400 + 1;
-        return TimeLocal(YearShift(cs, shift * -400), shift);
+        // Note: last_year_ can be arbitrarily far in the past, so the number
+        // of years beyond it is computed in unsigned arithmetic, and the
+        // shifted year is formed without the intermediate product.
+        const std::uint_fast64_t years =
+            static_cast<std::uint_fast64_t>(cs.year()) -
+            static_cast<std::uint_fast64_t>(last_year_) - 1;
+        const year_t shift = static_cast<year_t>(years / 400) + 1;
+        const year_t year =
+            last_year_ - 399 + static_cast<year_t>(years % 400);
+        return TimeLocal(civil_second(year, cs.month(), cs.day(), cs.hour(),
+                                      cs.minute(), cs.second()),
+                         shift);
       }
       const TransitionType& tt(transition_types_[tr->type_index]);
       if (cs > tt.civil_max) return MakeUnique(time_point<seconds>::max());
